@@ -45,6 +45,12 @@ Fixpoint ledger_walk (accts : list dacct) (denoms : list Z) (w : dworld) (sts : 
   | [] => None
   | (DInflow a c, _) :: t =>
       ledger_walk accts denoms (dist_inflow w a c) (map (fun p => a_inflow_addr accts a (dc_amt (fst p) c) (snd p)) (combine denoms sts)) t (i + 1)
+  | (DSetSubs subs, _) :: t =>
+      (* a parameter update: the machine is started again from the credited amounts reached so far, over the accounts of both
+         configurations *)
+      let w' := dist_set_subs w subs in
+      let accts' := dedup_key (accts ++ flat_map sd_accounts subs) [] in
+      ledger_walk accts' denoms w' (map (init_aled accts' w') denoms) t (i + 1)
   | (DBlock faults, _) :: t =>
       match dist_begin_block w faults with
       | Ok (w', _, _) =>
